@@ -45,7 +45,10 @@ def build_crate(src, n, timeout=1800):
         os.makedirs(os.path.join(d, "src"), exist_ok=True)
         with open(os.path.join(d, "Cargo.toml"), "w") as f:
             f.write(dg.CARGO_TOML % REPO)
-        shutil.copy(os.path.join(REPO, "Cargo.lock"), os.path.join(d, "Cargo.lock"))
+        lock = os.path.join(REPO, "Cargo.lock")
+        if not os.path.exists(lock):         # a scratch checkout: the lock file is not tracked
+            lock = os.path.join(ROOT, "harness", "Cargo.lock")
+        shutil.copy(lock, os.path.join(d, "Cargo.lock"))
         with open(os.path.join(d, "src", "main.rs"), "w") as f:
             f.write(src)
         env, target = cargo_env()
@@ -254,9 +257,10 @@ def storage_kind(attrs):
 
 
 def shape_histogram(c, hist):
-    for d in c.defs:
+    for k, d in enumerate(c.defs):
         if d is PLACEHOLDER:
             continue
+        hist["nesting=%d" % c.depth[k]] += 1
         hist["generic" if d["generic"] else "non-generic"] += 1
         if d["kind"] == "struct":
             hist["struct-" + d["fields"][0]] += 1
@@ -312,6 +316,8 @@ def check_derive(pid, tier, seed):
         search_note = None
 
     rc = 0
+    # report a difference in behaviour before a definition that merely fails to compile
+    violations.sort(key=lambda v: 1 if "compile" in v["what"] else 0)
     if violations:
         v = violations[0]
         replay = common.write_replay(pid, dict(property=pid, domain="derive", tier=tier, seed=seed,
